@@ -348,3 +348,37 @@ func (z Z) Protocol() *protocol.ProtocolManager { return nil }
 func (z Z) Producer() pillar.Manager            { return nil }
 func (z Z) Config() *zenon.Config               { return nil }
 func (z Z) Broadcaster() protocol.Broadcaster   { return z.N }
+
+// GenerateMomentum does what pillar.worker.generateMomentum does, with the same public calls, and returns the error
+// the worker only logs.
+func (n *Node) GenerateMomentum(skip int) (*nom.MomentumTransaction, error) {
+	insert := n.Chain.AcquireInsert("lab momentum-generator")
+	defer insert.Unlock()
+	prev := n.Frontier()
+	t := prev.Timestamp.Add(time.Duration(10*(skip+1)) * time.Second)
+	Clock.Set(t)
+	producer, err := n.Cons.GetMomentumProducer(t)
+	if err != nil {
+		return nil, err
+	}
+	var key *wallet.KeyPair
+	for _, k := range g.PillarKeys {
+		if k.Address == *producer {
+			key = k
+		}
+	}
+	if key == nil {
+		return nil, fmt.Errorf("no key for producer %v", producer)
+	}
+	blocks := n.Chain.GetNewMomentumContent()
+	m := &nom.Momentum{ChainIdentifier: n.Chain.ChainIdentifier(), PreviousHash: prev.Hash, Height: prev.Height + 1, TimestampUnix: uint64(t.Unix()), Content: nom.NewMomentumContent(blocks), Version: 1}
+	m.EnsureCache()
+	return n.Sup.GenerateMomentum(&nom.DetailedMomentum{Momentum: m, AccountBlocks: blocks}, key.Signer)
+}
+
+// InsertOwn is broadcaster.CreateMomentum: the generated momentum goes into the node's own chain.
+func (n *Node) InsertOwn(tx *nom.MomentumTransaction) error {
+	insert := n.Chain.AcquireInsert("lab create-momentum")
+	defer insert.Unlock()
+	return n.Chain.AddMomentumTransaction(insert, tx)
+}
